@@ -28,6 +28,7 @@ RULES_DOC = {
     "R10": "`let PAT = EXPR else { return X; };` (let-else) -> `let (binders) = match EXPR { PAT => (binders), _ => { return X; } };`",
     "R13": "closure with a tuple-pattern parameter `|(a, b)| e` -> `|v: T| { let (a, b) = v; e }`",
     "R14": "`let X = loop { .. break E .. };` (break with value) -> `let X; loop { .. { X = E; break; } .. }`",
+    "R16": "impl header replaced by the one given in the contract store (adds the bound `P: Prefix` where the source impl is unbounded; the contract is meaningless for other P)",
     "R11": "`vec![a, b]` -> `vec2(a, b)`-style helper calls with vstd-verified bodies (speclib/std_specs.rs)",
 }
 
@@ -1021,6 +1022,7 @@ def assemble(unit_path):
             fs = e[1]
             src, ftoks, it, impl = find_item(fs.file, "fn", fs.name, fs.impl_sel)
             hdr = impl_header_for(fs, impl)
+            if fs.impl_header: rules_used.add("R16")
             if impl is not None and impl_key(impl.header)[0] is not None and not fs.impl_header:
                 rules_used.add("R4")
             if hdr:
